@@ -55,25 +55,15 @@ Definition agrees (k : case) : bool :=
   | Panic => (k_code k =? 2)%nat
   end.
 
-(** both ends of year [y] are regular wall-clock seconds of [z] with the same offset *)
-Definition year_okb (z : tz) (y : Z) : bool :=
-  edge_okb z (dby y * SPD) && edge_okb z (dby (y + 1) * SPD)
-  && (offset_at z (dby y * SPD) =? offset_at z (dby (y + 1) * SPD)).
-
-(** the local midnights bounding t's calendar day are regular *)
-Definition day_okb (z : tz) (t : Z) : bool :=
-  edge_okb z (local_days z t * SPD) && edge_okb z ((local_days z t + 1) * SPD).
-
 Definition years_okb (y : Z) : bool := (1970 <=? y) && (y <=? 2261).
 
 (** domain of the guarded theorems:
-    intraday timeframes: C30_intraday (zone and time.Local year-regular);
-    1D:                  C30_daily    (zone year-regular, t's day regular) *)
+    zone and time.Local year-regular (C30_intraday); for 1D also t's day regular (C30_daily) *)
 Definition in_domain (k : case) : bool :=
   let z := k_z k in let y := year_of z (k_t k) in
   is_timeframe (k_tf k) && years_okb y && (0 <? k_rec k) && (k_rec k <? 2147483648) &&
-  (if k_tf k =? utils_Day then year_okb z y && day_okb z (k_t k)
-   else year_okb z y && year_okb (k_loc k) y).
+  year_okb z y && year_okb (k_loc k) y &&
+  (if k_tf k =? utils_Day then day_okb z (k_t k) else true).
 
 (** the property evaluated on the model (the 1D slot-0 conjunct is the refuted one: for 1D the data
     area test is only required when the index is >= 1) *)
